@@ -12,6 +12,10 @@ import java.util.ArrayList;
  * writeByte/Short/Int take an int, set* take (int index, value), lengths are ints.
  * Semantics are netty's: big-endian by default, *LE little-endian, reads beyond writerIndex and sets beyond
  * the capacity throw IndexOutOfBoundsException, writes grow the buffer.
+ * Indices are netty's too: 0 <= readerIndex <= writerIndex <= capacity; consumed bytes [0, readerIndex) STAY in
+ * the buffer (skipBytes / reads only move readerIndex), readableBytes() = writerIndex - readerIndex, and the
+ * absolute set*(index, v) / get*(index) take PHYSICAL indices (index 0 = first byte of the backing array, not
+ * the first readable byte).  TRACE positions are physical as well.
  *
  * Every mutation is logged in TRACE as {"append"|"set", position, bytes}; checksum services add
  * {"calc", coveredLen, value}.  The driver drains TRACE per operation.
